@@ -13,8 +13,8 @@ Theorems over `Model/CancelLts.lean` (all interleavings, any number of tasks, ke
 task `t` is dropped at its current await point) and `panic t` (its executor panics).
 
 * `cancel_restores`        — repaired configuration: once no task is left, the quiescent invariant `Q` holds.
-* `cancel_restores_asis_partial` — every configuration (also the code as it is): `Q` without its batch clause.
-* `f11_asis_aborts`, `f40_asis_session_overlaps_publication` — the code as it is violates the batch clause / the
+* `cancel_restores_asis_partial` — every configuration (also the code BEFORE the fixes d8958c0 / f2b6893, `Cfg.asIs`, historical): `Q` without its batch clause.
+* `f11_asis_aborts`, `f40_asis_session_overlaps_publication` — the code BEFORE those fixes (historical configuration `Cfg.asIs`) violates the batch clause / the
   phase discipline (findings F11, F40); `f12_original_aborts` — so did the original `input_session()` (F12,
   repaired in /repo by 7a67ce5).
 * `entry_has_live_owner`, `half_published_has_live_publisher`, `session_excludes_queries` — the same facts as
@@ -109,7 +109,7 @@ theorem cancel_restores_of_repairs {cfg : Cfg} (h11 : cfg.f11 = true) (h12 : cfg
 theorem cancel_restores {s : State} (hr : Reachable Cfg.fixed s) (hq : Quiescent s) : Q s :=
   cancel_restores_of_repairs rfl rfl hr hq
 
-/-- the part of `cancel_restores` that holds for the code as it is (every configuration): the lock tables, the
+/-- the part of `cancel_restores` that holds for every configuration, including the historical `Cfg.asIs` (the code before d8958c0 / f2b6893; the code NOW is `Cfg.fixed`): the lock tables, the
     node store and the phase lock are restored; the batch clause is what F11 / F12 break. -/
 theorem cancel_restores_asis_partial {cfg : Cfg} {s : State} (hr : Reachable cfg s) (hq : Quiescent s) : QCore s :=
   qcore_of_inv (reachable_core hr) (reachable_phase hr) hq
@@ -150,7 +150,7 @@ theorem session_excludes_queries {cfg : Cfg} (h20 : cfg.f40 = true) {s : State} 
     have := hp.rdIn t T hT hrd
     rw [hp.writerExcl w hw] at this; cases this
 
-/-! ### the code as it is: the three witnesses (each trace is enabled step by step in the as-is configuration) -/
+/-! ### HISTORICAL (the code before the fixes; the code now is `Cfg.fixed`): the three witnesses (each trace is enabled step by step in the `Cfg.asIs` configuration) -/
 
 /-- F11: a query is dropped while `done_backward_projection` awaits `upgrade_to_exclusive()` -/
 def f11Trace : List Ev := [.spawn 0 1 false none, .bpLock 0, .bpUp 0, .cancel 0]
